@@ -9,7 +9,7 @@ checks (default: the property's own check), reverts, and stores everything under
 import json, os, re, shutil, subprocess, sys, time
 
 VERIF = os.path.dirname(os.path.dirname(os.path.abspath(__file__)))
-REPO = "/repo"
+REPO = os.path.normpath(os.path.join(VERIF, "..", "repo"))  # /repo for /verif; the sibling clone for a scratch copy
 ENV = dict(os.environ, GOFLAGS="-mod=mod", GOPROXY="off", GOSUMDB="off", GOTOOLCHAIN="local")
 
 
